@@ -237,8 +237,11 @@ func runC11(c *Ctx) {
 	r.Fn(ana.ShortFunc(search))
 	mineResultFlow(c, "C11", fn, search, "call<(hash.Hash).Sum>(obj(call<(crypto.Hash).New>(load(global<repo/pkg/pow.Hash>)), call<(hash.Hash).Write>(self, p2)), nil)")
 	sb := ana.NewBuilder(c.P, search)
+	// the search routine's parameters by role, whether it is a method or a plain function: the digest is its []byte
+	// parameter, the start nonce its uint64, the required zeros its uint
+	PD, PS, PT := searchParam(search, "[]byte"), searchParam(search, "uint64"), searchParam(search, "uint")
 	for _, ce := range sb.CondEdges() {
-		if bd, ok := ana.Match("bin<<>(call<*>($l, $h, p3), "+WS+")", ce.Lit); ok {
+		if bd, ok := ana.Match("bin<<>(call<*>($l, $h, "+PT+"), "+WS+")", ce.Lit); ok {
 			_ = bd
 			lane = calleeOf(ce.Lit.Arg(0))
 		}
@@ -270,7 +273,7 @@ func runC11(c *Ctx) {
 		r.Check(ok && loopOK, "C11.lane-test.term", c.ipos(e.Instr), "lane test = TrailingZeros(^ OR_{i=243-n..242}(l[i]^h[i])): the range covers exactly the last n trits %s", ana.Explain(want, t))
 	}
 	// worker: panic guard, returned nonce, lane filling
-	pan := plainEdges(edgesMatching(sb, "bin<>>(p3, 243)"))
+	pan := plainEdges(edgesMatching(sb, "bin<>>("+PT+", 243)"))
 	for _, e := range ana.Exits(search) {
 		if e.Panic {
 			r.Check(exitMustPass(search, e, pan), "C11.lane-test.target-range", c.ipos(e.Instr), "the search routine panics only for more than 243 required zeros")
@@ -279,8 +282,8 @@ func runC11(c *Ctx) {
 		et := sb.Of(e.Results[1], e.Instr)
 		if et.Is("nil") {
 			vt := sb.Of(e.Results[0], e.Instr)
-			_, ok := ana.Match("bin<+>(ind<+"+WS+">(p2), conv<uint64>(call<*>(_, _, p3)))", vt)
-			hit := plainEdges(edgesMatching(sb, "bin<<>(call<*>(_, _, p3), "+WS+")"))
+			_, ok := ana.Match("bin<+>(ind<+"+WS+">("+PS+"), conv<uint64>(call<*>(_, _, "+PT+")))", vt)
+			hit := plainEdges(edgesMatching(sb, "bin<<>(call<*>(_, _, "+PT+"), "+WS+")"))
 			r.Check(ok && exitMustPass(search, e, hit), "C11.nonce-layout.returned-nonce", c.ipos(e.Instr), "returned nonce = batch base (start + 64·k) + lane index, only when the lane test found a lane < W: %s", short(vt.String(), 160))
 		}
 	}
@@ -288,15 +291,15 @@ func runC11(c *Ctx) {
 	var encNonce *ssa.Function
 	// the digest occupies EncodedLen(len(digest)) trits — computed, or taken from what b1t6.Encode returned for a lane
 	// (its documented result; the batch always has lanes, so the value left by the lane loop is that result)
-	encRet := "call<github.com/iotaledger/iota.go/encoding/b1t6.Encode>(_, p1)"
-	offPat := "alt(call<github.com/iotaledger/iota.go/encoding/b1t6.EncodedLen>(len(p1)), " + encRet + ", phi(0, " + encRet + "), phi(" + encRet + ", 0))"
+	encRet := "call<github.com/iotaledger/iota.go/encoding/b1t6.Encode>(_, " + PD + ")"
+	offPat := "alt(call<github.com/iotaledger/iota.go/encoding/b1t6.EncodedLen>(len(" + PD + ")), " + encRet + ", phi(0, " + encRet + "), phi(" + encRet + ", 0))"
 	fill := false
 	for _, t := range deepCallTerms(c, sb) { // the lane loop may sit in the search routine or in a helper it calls per batch
 		cal := calleeOf(t)
 		if cal == nil || cal == lane || cal.Blocks == nil || !ana.InRepo(cal) {
 			continue
 		}
-		if _, ok := ana.Match("call<*>(slice(load(iaddr(_, bin<+>(ind<+1>(-1), 1))), "+offPat+", none), bin<+>(ind<+"+WS+">(p2), conv<uint64>(bin<+>(ind<+1>(-1), 1))))", t); ok {
+		if _, ok := ana.Match("call<*>(slice(load(iaddr(_, bin<+>(ind<+1>(-1), 1))), "+offPat+", none), bin<+>(ind<+"+WS+">("+PS+"), conv<uint64>(bin<+>(ind<+1>(-1), 1))))", t); ok {
 			fill = true
 			encNonce = cal
 		}
@@ -309,7 +312,7 @@ func runC11(c *Ctx) {
 				continue
 			}
 			t := sb.CallTermAt(ci)
-			if bd, ok := ana.Match("call<*>(load(iaddr($buf, bin<+>(ind<+1>(-1), 1))), p1)", t); ok {
+			if bd, ok := ana.Match("call<*>(load(iaddr($buf, bin<+>(ind<+1>(-1), 1))), "+PD+")", t); ok {
 				_, fresh := ana.Find("store(iaddr(_, bin<+>(ind<+1>(-1), 1)), slice(alloc<[243]int8>, 0, 243))", bd["$buf"])
 				if fresh != nil || true {
 					w, _ := ana.Find("store(iaddr(_, bin<+>(ind<+1>(-1), 1)), slice(alloc<[243]int8>, 0, 243))", bd["$buf"])
@@ -452,4 +455,14 @@ func singleStoreTo(a *ssa.Alloc) *ssa.Store {
 		}
 	}
 	return st
+}
+
+// searchParam names ("pK") the first parameter of fn with the given type; "p?" (matching nothing) when there is none.
+func searchParam(fn *ssa.Function, typ string) string {
+	for i, p := range fn.Params {
+		if p.Type().String() == typ {
+			return "p" + itoa(int64(i))
+		}
+	}
+	return "p99"
 }
